@@ -1,6 +1,8 @@
 """Harness bodies for C10: every Python-reachable OpenMP entry point of the C back end,
 closed with small drivers.  build(entry) returns a zero-argument callable that
 (re)creates its inputs deterministically and returns the list of output arrays."""
+import itertools
+
 import numpy as np
 
 SIZES = [1, 2, 3, 5, 8]
@@ -107,6 +109,8 @@ def build(p):
             kwp["raise_large_expnt_error"] = False  # documented option: exponents above the ladder are accepted
         if cls is P.NLDFGaussianPlan:
             kwp.pop("spline_size", None)
+        if p.get("proc"):
+            kwp["proc_inds"] = list(p["proc"])  # documented option: this process handles a subset of the ladder
         plan = cls(st, p.get("nspin", 1), 0.1, 3.0, 7, coef_order=p.get("order", "gq"),
                    alpha_formula=p.get("formula", "etb"), use_smooth_expnt_cutoff=p.get("smooth", False), **kwp)
         n = p["n"]
@@ -310,6 +314,10 @@ def entry_table(tier):
     for plan, order, dense in (("spline", "gq", True), ("spline", "qg", True), ("spline", "gq", False), ("gaussian", "gq", False), ("gaussian", "qg", False)):
         for i in (-1, 0):
             T.append({"entry": "plan_coefs", "plan": plan, "order": order, "formula": "etb", "fam": "VIJ", "i": i, "n": 9, "dense": dense, "wide": True})
+    # a process-local subset of the exponent ladder (proc_inds), every plan type / order, incl. the version-k branch
+    for plan, order in itertools.product(("gaussian", "spline"), ("gq", "qg")):
+        for fam, i in (("VK", -1), ("VK", 0), ("VIJ", -1), ("VIJ", 0)):
+            T.append({"entry": "plan_coefs", "plan": plan, "order": order, "formula": "etb", "fam": fam, "i": i, "n": 9, "proc": [1, 3, 4]})
     T.append({"entry": "plan_coefs", "plan": "spline", "order": "gq", "formula": "zexp", "fam": "VJ", "i": -1, "n": 9, "dense": True})
     T.append({"entry": "plan_coefs", "plan": "spline", "order": "qg", "formula": "zexp", "fam": "VJ", "i": 1, "n": 5, "smooth": True, "nspin": 2})
     for mol in ("HF", "H2O"):
